@@ -206,10 +206,13 @@ def solve(binary, unwind, timeout, mem_gb, trace=True, slice_formula=True, fs=No
                 failing_props.append(name)
                 if first_trace is None and p.get("trace"):
                     first_trace = p["trace"]
-    if unwind_fail or unsupported:
+    if (unwind_fail or unsupported) and not failing:
         r["why"] = "unwinding assertion / unsupported construct reachable: " + "; ".join((unwind_fail + unsupported)[:3])
-        r["failed_checks"] = failing
         return r
+    if unwind_fail or unsupported:
+        # real assertion failures next to unwinding/unsupported failures: not trustworthy on their own,
+        # but if the native replay reproduces them they are reported (the caller checks `tainted`)
+        r["tainted"] = "; ".join((unwind_fail + unsupported)[:3])
     if failing:
         r["status"] = "failed"
         r["failed_checks"] = sorted(set(failing))
